@@ -567,6 +567,8 @@ class Interp:
             var = T("enter", ctx)
             if ctx.op == "call" and tm.dotted(ctx.args[0]) == "contextlib.closing" and ctx.args[1]:
                 var = ctx.args[1][0]
+            elif ctx.op == "call" and _self_entering(ctx):
+                var = ctx  # pools and executors return themselves from __enter__
             self.emit(fr, "with", s, ctx=ctx, var=var)
             if item.optional_vars is not None:
                 self.bind(fr, item.optional_vars, var, s)
@@ -1558,6 +1560,16 @@ def _cmpname(op):
 def guards_imply(guards, pred):
     """Some guard in the stack satisfies pred(term, polarity)."""
     return any(pred(c, pol) for c, pol in guards)
+
+
+def _self_entering(ctx):
+    """A constructor call of a worker pool / executor (whose __enter__ returns the object itself): multiprocessing.pool.*,
+    concurrent.futures.*Executor, or a class held in an attribute named pool_class / executor_class."""
+    nm = tm.callee_name(ctx) or ""
+    if nm.startswith(("multiprocessing.pool.", "multiprocessing.Pool", "concurrent.futures.")) or nm.split(".")[-1] in ("ThreadPool", "Pool", "ThreadPoolExecutor", "ProcessPoolExecutor"):
+        return True
+    f = ctx.args[0]
+    return f.op == "attr" and f.args[1] in ("pool_class", "executor_class")
 
 
 _CMP_FLIP = {"<": ">", ">": "<", "<=": ">=", ">=": "<=", "==": "==", "!=": "!=", "is": "is", "is not": "is not"}
